@@ -2,7 +2,7 @@
 """Regenerates MANIFEST.json from checks.json + manifest_extra.json (single source of truth for the check list)."""
 import json, os
 R = os.path.dirname(os.path.abspath(__file__))
-checks = json.load(open(os.path.join(R, "checks.json")))
+checks = {f[:-5]: json.load(open(os.path.join(R, "checks.d", f))) for f in sorted(os.listdir(os.path.join(R, "checks.d"))) if f.endswith(".json")}
 extra = json.load(open(os.path.join(R, "manifest_extra.json")))
 props = [json.loads(l)["id"] for l in open(os.path.join(R, "properties.jsonl"))]
 m = dict(version=1, setup_cmd="python3-vt vf.py setup",
